@@ -186,6 +186,7 @@ static int _vds_shared_init(vorbis_dsp_state *v,vorbis_info *vi,int encp){
 
   v->vi=vi;
   b->modebits=ov_ilog(ci->modes-1);
+  b->halfrate=hs;
 
   b->transform[0]=_ogg_calloc(VI_TRANSFORMB,sizeof(*b->transform[0]));
   b->transform[1]=_ogg_calloc(VI_TRANSFORMB,sizeof(*b->transform[1]));
@@ -698,7 +699,7 @@ int vorbis_synthesis_restart(vorbis_dsp_state *v){
   if(!vi)return -1;
   ci=vi->codec_setup;
   if(!ci)return -1;
-  hs=ci->halfrate_flag;
+  hs=((private_state *)(v->backend_state))->halfrate;
 
   v->centerW=ci->blocksizes[1]>>(hs+1);
   v->pcm_current=v->centerW>>hs;
@@ -729,7 +730,7 @@ int vorbis_synthesis_blockin(vorbis_dsp_state *v,vorbis_block *vb){
   vorbis_info *vi=v->vi;
   codec_setup_info *ci=vi->codec_setup;
   private_state *b=v->backend_state;
-  int hs=ci->halfrate_flag;
+  int hs=b->halfrate;
   int i,j;
 
   if(!vb)return(OV_EINVAL);
@@ -971,7 +972,7 @@ int vorbis_synthesis_read(vorbis_dsp_state *v,int n){
 int vorbis_synthesis_lapout(vorbis_dsp_state *v,float ***pcm){
   vorbis_info *vi=v->vi;
   codec_setup_info *ci=vi->codec_setup;
-  int hs=ci->halfrate_flag;
+  int hs=((private_state *)(v->backend_state))->halfrate;
 
   int n=ci->blocksizes[v->W]>>(hs+1);
   int n0=ci->blocksizes[0]>>(hs+1);
@@ -1048,10 +1049,8 @@ int vorbis_synthesis_lapout(vorbis_dsp_state *v,float ***pcm){
 }
 
 const float *vorbis_window(vorbis_dsp_state *v,int W){
-  vorbis_info *vi=v->vi;
-  codec_setup_info *ci=vi->codec_setup;
-  int hs=ci->halfrate_flag;
   private_state *b=v->backend_state;
+  int hs=b->halfrate;
 
   if(b->window[W]-hs<0)return NULL;
   return _vorbis_window_get(b->window[W]-hs);
